@@ -1,7 +1,7 @@
 /-
   Driver family `cachefs` (property C05): one persistent world, ops of a history.
 
-    init <grammarMtime> <enabled 0|1> <storeGated 0|1> → ok         (storeGated: `_can_store` checks `enabled`, the proposed repair of F4)
+    init <grammarMtime> <enabled 0|1>                 → ok
     lib <key>                                         → ok          (declares a LibraryPaths entry)
     mod <key> <srchex> <mtime> <target 0|1>           → ok          (initial file with a given mtime; clock := max clock (mtime+1))
     edit <key> <srchex>                               → <obs>       (Op.edit: fresh mtime from the clock)
@@ -71,10 +71,10 @@ def parseIdx (s : String) : Option Nat := if s.startsWith "#" then (s.drop 1).to
 def bool01 (s : String) : Option Bool := if s == "1" then some true else if s == "0" then some false else none
 
 def step' (w : World) : List String → World × String
-  | ["init", g, e, gated] =>
-    match g.toNat?, bool01 e, bool01 gated with
-    | some g, some e, some gated => ({ grammarMtime := g, enabled := e, clock := g + 1, storeGated := gated }, "ok")
-    | _, _, _ => (w, "bad-op")
+  | ["init", g, e] =>
+    match g.toNat?, bool01 e with
+    | some g, some e => ({ grammarMtime := g, enabled := e, clock := g + 1 }, "ok")
+    | _, _ => (w, "bad-op")
   | ["lib", key] => ({ w with libs := w.libs ++ [s2l key] }, "ok")
   | ["mod", key, src, t, target] =>
     match Str.unhex src, t.toNat?, bool01 target with
